@@ -27,10 +27,14 @@ theorem C16_explicit_always (n : Bytes) (r : Result) (h : classify n true = some
     r.kind ≠ .unparsable :=
   classify_true_ne_unparsable n r h
 
+example : classify [97] true = some ⟨.text, .normal⟩ := by decide
+
 /-- A walked file that is kept gets the type it would get if named. -/
 theorem C16_same_type (n : Bytes) (r : Result) (h : classify n false = some r)
     (hk : r.kind ≠ .unparsable) : classify n true = some r :=
   classify_false_true n r h hk
+
+example : classify [97] false = some ⟨.text, .normal⟩ ∧ Kind.text ≠ .unparsable := by decide
 
 /-- Rotation: a trailing component that is numeric or unrecognised is skipped. -/
 theorem C16_rotation (n k : Bytes) (ua : Bool) (hn : n ≠ []) (hk : k ≠ [])
@@ -39,7 +43,7 @@ theorem C16_rotation (n k : Bytes) (ua : Bool) (hn : n ≠ []) (hk : k ≠ [])
     classify (n ++ DOT :: k) ua = classify n ua :=
   classify_rotation n k ua hn hk hdot hjunk hutf hrow
 
-example : ([49] : Bytes) ≠ [] ∧ DOT ∉ ([49] : Bytes) ∧ (∀ b ∈ ([49] : Bytes), b ∉ junkChars)
+example : ([97] : Bytes) ≠ [] ∧ ([49] : Bytes) ≠ [] ∧ DOT ∉ ([49] : Bytes) ∧ (∀ b ∈ ([49] : Bytes), b ∉ junkChars)
     ∧ isUtf8 [49] = true ∧ lookup suffixTable (asciiLower [49]) = .nomatch := by decide
 
 /-- One compression suffix selects the container and leaves the type unchanged. -/
@@ -56,7 +60,11 @@ theorem C16_compress_inner_wins (n k : Bytes) (ua : Bool) (a : Arch) (r : Result
     classify (n ++ DOT :: k) ua = some r :=
   classify_compress_inner n k ua a r hn hrow hutf h harch
 
-example : lookup suffixTable (asciiLower [71, 90]) = .compress .gz ∧ isUtf8 [71, 90] = true := by decide
+/-- `a` + `.GZ`: hypotheses of `C16_compress`; `a.xz` + `.GZ`: hypotheses of `C16_compress_inner_wins`. -/
+example : lookup suffixTable (asciiLower [71, 90]) = .compress .gz ∧ isUtf8 [71, 90] = true
+    ∧ ([97] : Bytes) ≠ [] ∧ classify [97] false = some ⟨.text, .normal⟩
+    ∧ ([97, 46, 120, 122] : Bytes) ≠ [] ∧ classify [97, 46, 120, 122] false = some ⟨.text, .xz⟩ := by
+  decide
 
 /-- Letter case never matters. -/
 theorem C16_case (n : Bytes) (ua : Bool) : classify (asciiLower n) ua = classify n ua :=
@@ -67,16 +75,20 @@ theorem C16_junk_trailing_partial (n j : Bytes) (ua : Bool) (hutf : isUtf8 n = t
     (hj : ∀ b ∈ j, b ∈ junkChars) : classify (n ++ j) ua = classify n ua :=
   classify_junk_trailing n j ua hutf hj
 
+example : isUtf8 [97, 46, 108, 111, 103] = true ∧ ∀ b ∈ ([126] : Bytes), b ∈ junkChars := by decide
+
 /-- The unrestricted statement. -/
 def C16_junk_trailing_full : Prop :=
   ∀ (n j : Bytes) (ua : Bool), (∀ b ∈ j, b ∈ junkChars) → classify (n ++ j) ua = classify n ua
 
-/-- It is false for names that are not UTF-8 (`to_str()` yields `""`, so nothing is trimmed). -/
+/-- It is false for names that are not UTF-8 (`to_str()` yields `""`, so nothing is trimmed):
+witness `\xFF.log~` (Unparsable when walked) vs `\xFF.log` (text). -/
 theorem C16_junk_trailing_full_false : ¬ C16_junk_trailing_full :=
   junk_trailing_full_false
 
-/-- The first recognised type word from the right decides (suffix position). -/
-theorem C16_type_word (n w : Bytes) (ua : Bool) (hn : n ≠ []) (hutf : isUtf8 w = true)
+/-- The first recognised type word from the right decides (suffix position).
+The word must be non-empty: see `C16_type_word_full_false`. -/
+theorem C16_type_word (n w : Bytes) (ua : Bool) (hn : n ≠ []) (hw : w ≠ []) (hutf : isUtf8 w = true)
     (hdot : DOT ∉ w) (hjunk : ∀ b ∈ w, b ∉ junkChars) :
     classify (n ++ DOT :: w) ua =
       (match lookup suffixTable (asciiLower w) with
@@ -88,7 +100,32 @@ theorem C16_type_word (n w : Bytes) (ua : Bool) (hn : n ≠ []) (hutf : isUtf8 w
        | .nonlog => some (fallback ua .normal)
        | .compress a => classifyAux (n.length + 1) n ua a
        | .nomatch => classify n ua) :=
-  classify_type_word n w ua hn hutf hdot hjunk
+  classify_type_word n w ua hn hw hutf hdot hjunk
+
+example : ([97] : Bytes) ≠ [] ∧ ([108, 111, 103] : Bytes) ≠ [] ∧ isUtf8 [108, 111, 103] = true
+    ∧ DOT ∉ ([108, 111, 103] : Bytes) ∧ ∀ b ∈ ([108, 111, 103] : Bytes), b ∉ junkChars := by decide
+
+/-- The statement as first written, without `w ≠ []`. -/
+def C16_type_word_full : Prop :=
+  ∀ (n w : Bytes) (ua : Bool), n ≠ [] → isUtf8 w = true → DOT ∉ w → (∀ b ∈ w, b ∉ junkChars) →
+    classify (n ++ DOT :: w) ua =
+      (match lookup suffixTable (asciiLower w) with
+       | .evtx => some ⟨.evtx, .normal⟩
+       | .journal => some ⟨.journal, .normal⟩
+       | .text => some ⟨.text, .normal⟩
+       | .fixed t => some ⟨.fixed t, .normal⟩
+       | .tarArchive => some ⟨.archiveTar, .normal⟩
+       | .nonlog => some (fallback ua .normal)
+       | .compress a => classifyAux (n.length + 1) n ua a
+       | .nomatch => classify n ua)
+
+/-- It is false for the empty word: `..a.` walked is text (cleaned to `a.`, whose extension is
+empty), while `..a` is `Unparsable` (cleaned path keeps the extension `a`, a known non-log). -/
+theorem C16_type_word_full_false : ¬ C16_type_word_full := by
+  intro h
+  have := h [46, 46, 97] [] false (by decide) (by decide) (by decide) (by decide)
+  revert this
+  decide
 
 /-- A name none of whose components is recognised is read as text
 (here: a single junk-free component without dots). -/
@@ -98,6 +135,9 @@ theorem C16_default_text (n : Bytes) (ua : Bool) (hn : n ≠ []) (hutf : isUtf8 
     classify n ua = some ⟨.text, .normal⟩ :=
   classify_default_text n ua hn hutf hdot hjunk hrow
 
+example : ([97] : Bytes) ≠ [] ∧ isUtf8 [97] = true ∧ DOT ∉ ([97] : Bytes)
+    ∧ (∀ b ∈ ([97] : Bytes), b ∉ junkChars) ∧ lookup nameTable (asciiLower [97]) = .nomatch := by decide
+
 /-- Leading junk: stated in full, false in one corner (`..x`, `~.x` when walking). -/
 def C16_junk_leading_full : Prop :=
   ∀ (n j : Bytes) (ua : Bool), isUtf8 n = true → (∀ b ∈ j, b ∈ junkCharsLead) →
@@ -106,13 +146,18 @@ def C16_junk_leading_full : Prop :=
 theorem C16_junk_leading_full_false : ¬ C16_junk_leading_full :=
   junk_leading_full_false
 
-/-- Leading junk characters other than `.` never matter … -/
+/-- Leading junk characters other than `.` never matter …
+(`hutf` is not actually needed: `S4V.Lemmas.Path.classify_junk_leading'`.) -/
 theorem C16_junk_leading_partial (n j : Bytes) (ua : Bool) (hutf : isUtf8 n = true)
     (hj : ∀ b ∈ j, b ∈ junkChars) (hn : startsWithIn junkCharsLead n = false) :
     classify (j ++ n) ua = classify n ua :=
   classify_junk_leading n j ua hutf hj hn
 
-/-- … and neither does one leading `.` (a hidden file). -/
+example : isUtf8 [97] = true ∧ (∀ b ∈ ([126] : Bytes), b ∈ junkChars)
+    ∧ startsWithIn junkCharsLead [97] = false := by decide
+
+/-- … and neither does one leading `.` (a hidden file).
+(`hutf` is not actually needed: `S4V.Lemmas.Path.classify_hidden'`.) -/
 theorem C16_hidden_partial (n : Bytes) (ua : Bool) (hutf : isUtf8 n = true)
     (hn : startsWithIn junkCharsLead n = false) :
     classify (DOT :: n) ua = classify n ua :=
